@@ -2,7 +2,7 @@
 LIB = ["src/lib/ares_library_init.c", "src/lib/dsa/ares_llist.c", "src/lib/dsa/ares_array.c", "src/lib/str/ares_buf.c",
        "src/lib/str/ares_str.c", "src/lib/util/ares_math.c", "src/lib/ares_conn.c", "src/lib/ares_socket.c",
        "src/lib/ares_close_sockets.c", "src/lib/ares_cancel.c", "src/lib/ares_metrics.c", "src/lib/ares_send.c",
-       "src/lib/util/ares_timeval.c"]
+       "src/lib/util/ares_timeval.c", "src/lib/ares_timeout.c"]
 SUP = ["vp_rt.c", "valloc.c", "memloops.c", "slist_ref.c", "szvp_ref.c", "asvp_ref.c", "lock_ghost.c", "dnsrec_abs.c",
        "vsock.c", "world.c"]
 ASSUMPTIONS = ["reference containers slist_ref / szvp_ref / asvp_ref (real ones checked against the same contracts in C19)",
@@ -14,13 +14,124 @@ ASSUMPTIONS = ["reference containers slist_ref / szvp_ref / asvp_ref (real ones 
 def sendquery_jobs(tier):
     J = []
     for nsrv in (1, 2):
-        J.append(dict(name="sendquery_srv%d" % nsrv, harness="../machine/sendquery.c", defines=["-DNSRV=%d" % nsrv],
-                      real=LIB, support=SUP, unwind=8, backend="cadical", timeout=900, mem_gb=16,
-                      unwindset=["ares_send_query:5", "ares_requeue_query:5", "end_query:5", "ares_close_connection:5",
-                                 "handle_conn_error:5", "ares_cancel:3", "M_user_cb:3"],
-                      witnesses=["end", "request ended", "sent on first choice"],
-                      bound="ONE ares_send_query on %d server(s) with failure counters 0..2, tries 1..2, udp_max_queries 0..2, "
-                            "rotate on/off, USEVC on/off, 0/1 existing connection (UDP with use count 0..3, or TCP) to the "
-                            "best server carrying 0/1 sibling request; every socket, cookie and serialisation failure; "
-                            "callbacks may re-enter ares_cancel (depth 1); then a final ares_cancel" % nsrv))
+      for usevc in (0, 1):
+        for existing in (0, 1, 2):
+          for sibling in (0, 1):
+            if sibling and not existing:
+                continue
+            if existing == 1 and usevc:
+                continue  # a UDP connection is irrelevant to a TCP-only channel
+            J.append(dict(name="sendquery_srv%d_vc%d_ex%d_sib%d" % (nsrv, usevc, existing, sibling),
+                      harness="../machine/sendquery.c",
+                      defines=["-DNSRV=%d" % nsrv, "-DUSEVC=%d" % usevc, "-DEXISTING=%d" % existing, "-DSIBLING=%d" % sibling],
+                      real=LIB, support=SUP, unwind=8, backend="cadical", timeout=2400, mem_gb=16,
+                      replace=["ares_requeue_query"], replace_with=["rq_stub.c"],
+                      unwindset=["ares_send_query:2", "ares_requeue_query:4", "end_query:3", "ares_close_connection:3",
+                                 "handle_conn_error:3", "ares_cancel:3", "M_user_cb:3", "ares_free_query:4",
+                                 "ares_cancel.0:4", "ares_htable_szvp_get.0:5", "ares_htable_szvp_remove.0:5",
+                                 "ares_htable_szvp_insert.0:5", "ares_htable_szvp_insert.1:5", "ares_htable_asvp_get.0:7",
+                                 "ares_htable_asvp_remove.0:7", "ares_htable_asvp_insert.0:7", "ares_htable_asvp_insert.1:7",
+                                 "ares_requeue_queries.0:3", "ares_llist_clear.0:4", "memcpy.0:30", "memset.0:30"],
+                      witnesses=["end"],
+                      bound="ONE level of ares_send_query (nested requeue = contract stub) on %d server(s) with failure counters 0..2, tries 1..2, udp_max_queries 0..2, "
+                            "rotate on/off, USEVC=%d, existing connection to the best server: %s, sibling request on it: %d; "
+                            "every socket, cookie and serialisation failure; callbacks may re-enter ares_cancel (depth 1); "
+                            "then a final ares_cancel" % (nsrv, usevc, ["none", "UDP (use count 0..3)", "TCP"][existing], sibling)))
     return J
+
+UW = ["end_query:3", "ares_close_connection:3", "handle_conn_error:3", "ares_cancel:3", "M_user_cb:3", "ares_free_query:4",
+      "ares_cancel.0:4", "ares_htable_szvp_get.0:5", "ares_htable_szvp_remove.0:5", "ares_htable_szvp_insert.0:5",
+      "ares_htable_szvp_insert.1:5", "ares_htable_asvp_get.0:7", "ares_htable_asvp_remove.0:7", "ares_htable_asvp_insert.0:7",
+      "ares_htable_asvp_insert.1:7", "ares_requeue_queries.0:3", "ares_llist_clear.0:4", "memcpy.0:30", "memset.0:30"]
+
+def requeue_jobs(tier):
+    J = []
+    for nsrv in (1, 2):
+        J.append(dict(name="requeue_step_srv%d" % nsrv, harness="../machine/requeue_step.c", defines=["-DNSRV=%d" % nsrv],
+                      real=LIB, support=SUP, unwind=8, backend="cadical", timeout=1800, mem_gb=16,
+                      replace=["ares_send_query"], replace_with=["sq_stub.c"], unwindset=UW + ["ares_send_query:4", "ares_requeue_query:2"],
+                      witnesses=["end", "resent", "deferred", "budget exhausted"],
+                      bound="ONE ares_requeue_query (nested send = contract stub) for a request with try_count 0..3e6, tries "
+                            "1..1e6, %d server(s), no_retries on/off, any incoming/previous status, inc_try_count on/off, "
+                            "immediate or deferred (requeue array)" % nsrv))
+    return J
+
+def timeouts_jobs(tier):
+    J = []
+    for nq in (1, 2):
+        J.append(dict(name="timeouts_step_nq%d" % nq, harness="../machine/timeouts_step.c", defines=["-DNQ=%d" % nq],
+                      real=LIB, support=SUP, unwind=8, backend="cadical", timeout=1800, mem_gb=16,
+                      replace=["ares_requeue_query"], replace_with=["rq_stub.c"], unwindset=UW + ["ares_send_query:2", "ares_requeue_query:4"],
+                      witnesses=["end", "none expired"] + (["both expired"] if nq == 2 else []),
+                      bound="ONE process_timeouts with %d request(s) in flight, ARBITRARY deadlines and clock (microsecond "
+                            "resolution); nested requeue = contract stub" % nq))
+    return J
+
+def answer_jobs(tier, kf_group="answer_step"):
+    J = []
+    for rx_tcp in (0, 1):
+        for on_other in (0, 1):
+            J.append(dict(name="answer_step_rx%s_%s" % ("tcp" if rx_tcp else "udp", "stale" if on_other else "current"),
+                      harness="../machine/answer_step.c", defines=["-DRX_TCP=%d" % rx_tcp, "-DON_OTHER=%d" % on_other],
+                      real=LIB, support=SUP, unwind=8, backend="cadical", timeout=1800, mem_gb=16,
+                      kf_group=(kf_group + "_stale") if on_other else None,
+                      replace=["ares_requeue_query"], replace_with=["rq_stub.c"], unwindset=UW + ["ares_send_query:2", "ares_requeue_query:4"],
+                      witnesses=["end", "dropped"] + ([] if on_other else ["delivered", "failover", "edns downgrade"] +
+                                                      ([] if rx_tcp else ["tcp upgrade"])),
+                      bound="ONE process_answer: response arrives on a %s connection while the request is assigned to %s; "
+                            "symbolic id match, question name {same, other case, other}, type match, TC, rcode 0..5, OPT in "
+                            "request/response, option count, cookie verdict, parse failure, zero length, channel flags "
+                            "0x20/IGNTC/NOCHECKRESP" % ("TCP" if rx_tcp else "UDP", "ANOTHER connection (stale reply)" if on_other
+                                                       else "that connection")))
+    return J
+
+def health_jobs(tier):
+    J = []
+    names = ["increment_failures", "set_good", "probe", "random_best"]
+    for op in range(4):
+        for nsrv in ((2, 3) if op != 2 else (2, 3)):
+            J.append(dict(name="health_%s_srv%d" % (names[op], nsrv), harness="../machine/health_step.c",
+                      defines=["-DOP=%d" % op, "-DNSRV=%d" % nsrv], real=[l for l in LIB if not l.endswith("ares_send.c")],
+                      support=SUP, unwind=8, backend="cadical", timeout=1800, mem_gb=8, unwindset=UW,
+                      witnesses=["end"] + (["probe sent", "no probe"] if op == 2 else []),
+                      bound="ONE %s on %d servers with failure counters 0..3, probe-pending flags and retry times symbolic, "
+                            "retry chance 0..3, retry delay 0..100 s" % (names[op], nsrv)))
+    return J
+
+def wake_jobs(tier):
+    J = []
+    for usevc, existing in ((0, 0), (0, 1), (1, 0), (1, 2)):
+        J.append(dict(name="wake_step_%s_%s" % ("tcp" if usevc else "udp", ["fresh", "idleudp", "idletcp"][existing]),
+                      harness="../machine/wake_step.c", defines=["-DUSEVC=%d" % usevc, "-DEXISTING=%d" % existing],
+                      real=LIB, support=SUP, unwind=8, backend="cadical", timeout=1800, mem_gb=8,
+                      kf_group="wake_step_idle" if existing else None,
+                      replace=["ares_requeue_query"], replace_with=["rq_stub.c"], unwindset=UW + ["ares_send_query:2", "ares_requeue_query:4"],
+                      witnesses=["end"] + (["fresh connection"] if not existing else []),
+                      bound="ONE ares_send_query (%s) with the event thread's callbacks as wake recorders, %s, nothing pending "
+                            "before the call; every socket outcome" % ("TCP" if usevc else "UDP",
+                            ["no connection yet", "an idle kept-open UDP connection", "an idle kept-open TCP connection"][existing])))
+    return J
+
+def cleanup_jobs(tier):
+    J = []
+    shapes = [("u", None), ("t", None), ("ut", None)] + ([("u", "t"), ("ut", "u"), ("uut", "ut")] if tier != "quick" else [])
+    for op, opname in ((0, "check_cleanup"), (1, "close_sockets")):
+        for s0, s1 in shapes:
+            J.append(dict(name="%s_%s_%s" % (opname, s0, s1 if s1 is not None else "x"), harness="../machine/cleanup_step.c",
+                      defines=["-DOP=%d" % op, '-DSHAPE0="%s"' % s0, '-DSHAPE1="%s"' % (s1 or ""), "-DNS=%d" % (2 if s1 is not None else 1)],
+                      real=LIB, support=SUP, unwind=8, backend="cadical", timeout=1800, mem_gb=8,
+                      replace=["ares_requeue_query"], replace_with=["rq_stub.c"], unwindset=UW + ["ares_send_query:2", "ares_requeue_query:5"],
+                      witnesses=["end"],
+                      bound="ONE %s on the connection set server0=[%s] server1=[%s] (u=UDP t=TCP); each connection idle or "
+                            "carrying a request, use count 0..3, udp_max_queries 0..2, stay-open on/off, server failures 0..1"
+                            % ("ares_check_cleanup_conns" if op == 0 else "ares_close_sockets(server0)", s0, s1 if s1 is not None else "-")))
+    return J
+
+def send_early_jobs(tier):
+    return [dict(name="send_early", harness="../machine/send_early.c",
+                 real=[l for l in LIB if not l.endswith("ares_send.c")], support=SUP, unwind=8, backend="cadical", timeout=1800,
+                 mem_gb=8, replace=["ares_send_query"], replace_with=["sq_stub.c"], unwindset=UW,
+                 witnesses=["end", "failed", "completed synchronously", "pending"],
+                 bound="ONE ares_send_nolock: 0/1 servers, cache miss/hit/error, NOCACHE on/off, duplicate failing with any "
+                       "status, 0x20 on/off (name rewrite may fail), USEVC on/off, ANY single allocation failure (1st..6th), any "
+                       "outcome of the first send attempt (contract stub)")]
